@@ -1,6 +1,12 @@
-"""print the current AST fingerprints of the hand-modelled functions (paste into coq/Proofs/LaneFingerprints.v after review)"""
+"""regenerate /verif/hand_model_fingerprints.json from /repo/src (after reviewing an edit and updating the hand models);
+also prints the Coq-side fingerprints of the lane primitives for coq/Proofs/LaneFingerprints.v"""
+import json
 import re
-from harness.common import GEN, run_translator
-print(run_translator("instructions"))
-txt = (GEN / "Gen_instructions.v").read_text()
-print(re.search(r"Definition fingerprints.*?\]\.", txt, flags=re.S).group(0).replace("Definition fingerprints", "Definition expected_fingerprints"))
+
+from harness.fingerprints import FILE, HAND_MODELLED, current
+
+data = {pid: current(pid) for pid in sorted(HAND_MODELLED)}
+FILE.write_text(json.dumps(data, indent=1) + "\n")
+print("wrote", FILE)
+missing = [(p, s) for p, d in data.items() for s, h in d.items() if h == "MISSING"]
+print("missing:", missing)
